@@ -13,7 +13,10 @@
 //              first padding salt steered to {default, 00.., FF..}; verification under the public key / the secret key /
 //              a re-imported public key; verification against altered data (append, drop last, flip first, empty) and
 //              under another key.  Encryption (keys >= 672 bit): plaintext classes {00.., FF.., random} x salt classes;
-//              decrypt returns the bytes; decryption under another key fails.  check() on every key.
+//              decrypt returns the bytes; decryption under another key fails.  check() on every key.  Additionally, per key:
+//              SAEP pads r chosen by the harness (tmcg_g(r) computed harness-side) so that the padded value starts with
+//              1 (all three plaintext classes), 2, 3, 20 (chosen plaintext) zero octets; and a signature searched for whose
+//              padded square starts with a zero octet.
 //   tsig       signature text  "sig|<keyid>|<root>|"            every field x the mutation catalogue (see catalogue()).
 //   tenc       ciphertext text "enc|<keyid>|<value>|"            every field x catalogue.
 //   tkey       public key text "pub|name|email|type|m|y|nzk^S1^..^S2^..^S3^..^|sig|<keyid>|<root>|": every '|' field and
@@ -130,6 +133,26 @@ struct Coins {
 	}
 	~Coins() { mcenv::cur = old; }
 	size_t requests(size_t len) const { size_t n = 0; for (size_t i = 0; i < cs.log.size(); i++) if (cs.log[i].len == len) n++; return n; }
+};
+
+// the first request of exactly bytes.size() octets is answered with `bytes` (SAEP pad r chosen by the harness)
+struct FixedCoins {
+	mcenv::CoinSource cs;
+	mcenv::CoinSource *old;
+	FixedCoins(uint64_t seed, uint64_t party, const std::vector<unsigned char> &bytes) : cs(seed, party)
+	{
+		std::shared_ptr<bool> first(new bool(true));
+		cs.steer = [bytes, first](unsigned char *buf, size_t len, int, uint64_t) -> bool {
+			if (len != bytes.size() || !*first)
+				return false;
+			*first = false;
+			memcpy(buf, bytes.data(), len);
+			return true;
+		};
+		old = mcenv::cur;
+		mcenv::cur = &cs;
+	}
+	~FixedCoins() { mcenv::cur = old; }
 };
 
 // ---------------------------------------------------------------------------------------------- key pool
@@ -584,6 +607,29 @@ static void fam_roundtrip()
 				TMCG_SecretKey sk2;
 				if (!sk2.import(so.str()) || !sk2.check())
 					R->viol("rabin/secret-import", "secret key text does not import/check: " + kid, cell);
+				// a signature whose square (the PRab-padded value w || r* || gamma) starts with a zero octet: verify() must still accept
+				{
+					size_t mnsize = mpz_sizeinbase(K.sk->m, 2) / 8;
+					Z x, sq;
+					bool found = false;
+					for (unsigned tries = 0; tries < 20000 && !found; tries++)
+					{
+						std::string sg;
+						{
+							Coins c(SEED * 8191 + ki * 65537 + tries, 57);
+							sg = K.sk->sign("leading zero octet");
+						}
+						parsez(x.v, sig_value(sg));
+						mpz_mul(sq.v, x.v, x.v), mpz_mod(sq.v, sq.v, K.sk->m);
+						if (mpz_sizeinbase(sq.v, 2) > 8 * (mnsize - 1))
+							continue;
+						found = true;
+						R->ok(true);
+						R->counters["signatures_with_leading_zero_octet"]++;
+						if (!K.pk->verify("leading zero octet", sg))
+							R->viol("rabin/valid-signature-refused", "signature whose padded value starts with a zero octet is refused: " + shortened(sg, 60), cell);
+					}
+				}
 				R->sample(cell, "key " + K.sk->type + " m=" + shortened(zt(K.sk->m), 40) + " y=" + zt(K.sk->y) + " proof stages " + str(K.S[0]) + "/" + str(K.S[1]) + "/" + str(K.S[2]) + " sig=" + shortened(K.sk->sig, 50));
 			}
 			for (size_t li = 0; li < lens.size(); li++)
@@ -693,6 +739,56 @@ static void fam_roundtrip()
 					if (pc == 2 && salt == 0 && via == 0)
 						R->sample(cell, "enc=" + shortened(enc, 70) + " decrypt ok");
 				}
+		// SAEP-padded values with leading zero octets.  The padded value is the big-endian number Mt || r with
+		// Mt = (plaintext || 0^20) xor g(r); the harness picks r (and for the "chosen" class the plaintext) so that the first
+		// k octets of Mt are 0x00: the root that decrypt() has to recognise is k octets shorter than usual.
+		for (int cls = 0; cls < 3; cls++)
+			for (size_t k = 1; k <= TMCG_SAEP_S0; k = (k < 3 ? k + 1 : (k == 3 ? TMCG_SAEP_S0 : TMCG_SAEP_S0 + 1)))
+			{
+				if (cls < 2 && k > 1)
+					break;
+				std::vector<unsigned char> r(s1), g12(2 * TMCG_SAEP_S0);
+				unsigned char pt[TMCG_SAEP_S0], out[TMCG_SAEP_S0];
+				uint64_t st = SEED * 977 + ki * 131 + cls * 17 + k;
+				for (unsigned tries = 0; tries < 100000; tries++)
+				{
+					for (size_t i = 0; i < s1; i++)
+						r[i] = (unsigned char)(mcenv::splitmix(st) >> 11);
+					tmcg_g(g12.data(), g12.size(), r.data(), s1);
+					if (cls == 2 || g12[0] == (cls == 0 ? 0x00 : 0xFF))
+						break;
+				}
+				if (cls == 0) memset(pt, 0x00, sizeof pt);
+				else if (cls == 1) memset(pt, 0xFF, sizeof pt);
+				else
+					for (size_t i = 0; i < sizeof pt; i++)
+						pt[i] = i < k ? g12[i] : (unsigned char)(g12[i] ^ (0x11 + i));   // exactly k leading zero octets
+				for (int via = 0; via < 2; via++)
+				{
+					std::string enc;
+					{
+						FixedCoins c(SEED + ki, 68, r);
+						enc = via ? K.sk->encrypt(pt) : K.pk->encrypt(pt);
+					}
+					// confirm with the harness' own SAEP computation that this ciphertext is the square of a value with k leading zero octets
+					std::vector<unsigned char> yy(2 * TMCG_SAEP_S0 + s1);
+					for (size_t i = 0; i < 2 * TMCG_SAEP_S0; i++)
+						yy[i] = (unsigned char)((i < TMCG_SAEP_S0 ? pt[i] : 0) ^ g12[i]);
+					memcpy(yy.data() + 2 * TMCG_SAEP_S0, r.data(), s1);
+					Z v, c;
+					mpz_import(v.v, yy.size(), 1, 1, 1, 0, yy.data());
+					bool lead = mpz_sizeinbase(v.v, 2) <= 8 * (yy.size() - k);
+					mpz_mul(v.v, v.v, v.v), mpz_mod(v.v, v.v, K.sk->m);
+					std::vector<std::string> ep = split(enc, '|');
+					bool confirmed = lead && ep.size() > 2 && parsez(c.v, ep[2]) && !mpz_cmp(c.v, v.v);
+					R->counters[confirmed ? "saep_leading_zero_octets_confirmed" : "saep_leading_zero_octets_unconfirmed"]++;
+					memset(out, 0xA5, sizeof out);
+					bool d = K.sk->decrypt(out, enc);
+					R->ok(true);
+					if (!d || memcmp(out, pt, sizeof pt))
+						R->viol("rabin/decrypt-mismatch", "decrypt = " + str(d) + " for a padded value with " + str(k) + " leading zero octet(s), plaintext class " + str(cls) + " enc=" + shortened(enc, 60), cell);
+				}
+			}
 	}
 }
 
